@@ -314,7 +314,7 @@ def run(ctx):
 
     import time
     stages = ctx.extra.setdefault("stage_seconds", {"proofs": round(time.time() - ctx.t0, 1)})
-    for fn in (kernel_level, data_level_model, oracle_coupling, oracle_long_lags, oracle_knn, oracle_pure_python,
+    for fn in (kernel_level, data_level_model, oracle_coupling, oracle_long_lags, oracle_periodic, oracle_knn, oracle_pure_python,
                oracle_climate, oracle_surrogates):
         t0 = time.time()
         fn(ctx, rng, nprng, quick)
@@ -670,6 +670,33 @@ def data_level_model(ctx, rng, nprng, quick):
                                     f"model lag {cands[0]} signed square {sq[i, j, cands[0]]}")
             return None
         cor.add(f"xcorr {T} {N} {tm} {flat_series_major(d)}", compare)
+    # climate Pearson / Spearman classes against pearsonSq / spearmanSq (exact rationals)
+    from pyunicorn.climate import TsonisClimateNetwork, SpearmanClimateNetwork
+    with quiet():
+        nets = {"pearson": make_climate(TsonisClimateNetwork, nprng.randn(8, 3))[0],
+                "spearman": make_climate(SpearmanClimateNetwork, nprng.randn(8, 3))[0]}
+    for c in range(80 if quick else 800):
+        T = rng.choice([3, 4, 5, 8, 12, 20])
+        N = rng.choice([2, 3, 4])
+        if rng.random() < 0.5:
+            d = nprng.randint(0, 4, size=(T, N)).astype(float)       # many ties
+        else:
+            d, _ = gen_data(rng, nprng, T, N, "int")
+        for i in range(N):                  # the model zeroes constant series, numpy reports nan
+            if np.ptp(d[:, i]) == 0:
+                d[rng.randrange(T), i] += 1.0
+        for kind in ("pearson", "spearman"):
+            with quiet():
+                got = np.asarray(nets[kind].calculate_similarity_measure(d - d.mean(axis=0)), dtype=float)
+            ctx.case(("simsq", kind, T, N, d.tobytes().hex()), True)
+            ctx.count("data:simsq:" + kind)
+
+            def compare(m, got=got, N=N):
+                sq = np.array([float(x) for x in dec_rats(m)]).reshape(N, N)
+                if not np.all(np.abs(ssq(got) - sq) <= 2e-5):
+                    return f"impl {got.tolist()} (signed squares {ssq(got).tolist()}) model {sq.tolist()}"
+                return None
+            cor.add(f"simsq {kind} {T} {N} {flat_series_major(d)}", compare)
     return cor.run()
 
 
@@ -912,6 +939,54 @@ def oracle_long_lags(ctx, rng, nprng, quick):
                      f"({mv[0, 1]}, {ml[0, 1]})",
                      {"T": T, "tau_max": tm, "true_lag": lag, "seed_data": "x_0 = randn, x_1 = x_0 shifted",
                       "observed": [float(mv[0, 1]), int(ml[0, 1])], "expected": [1.0, lag]})
+
+
+def oracle_periodic(ctx, rng, nprng, quick):
+    """first-maximum rule on exact ties: all series have period p, so the windows at tau and
+    tau + p are identical arrays and the estimates tie exactly.  cross_correlation visits
+    tau = 0.. and reports lag = tau_max - tau (largest lag wins); mutual_information /
+    information_transfer report lag = tau (smallest lag wins)."""
+    from pyunicorn.funcnet import CouplingAnalysis
+    for c in range(30 if quick else 300):
+        p = rng.choice([2, 3])
+        N = rng.choice([2, 3])
+        tm = rng.randrange(p, p + 4)
+        reps = rng.randrange(tm // p + 3, tm // p + 8)
+        block = nprng.permutation(p * N).reshape(p, N).astype(float) + nprng.rand(p, N) / 4
+        d = np.tile(block, (reps, 1))
+        T = d.shape[0]
+        ctx.case(("periodic", p, N, tm, d.tobytes().hex()), True)
+        ctx.count(f"oracle:periodic:p={p}")
+        with quiet():
+            ca = CouplingAnalysis(d.copy(), silence_level=3)
+            mv, ml = ca.cross_correlation(tau_max=tm, lag_mode="max")
+        P = {"T": T, "N": N, "tau_max": tm, "period": p, "data": lst(d)}
+        offd = ~np.eye(N, dtype=bool)
+        if np.any(ml[offd] <= tm - p):
+            ctx.fail({"kind": "coupling", "method": "cross_correlation", "check": "first_maximum"},
+                     f"period-{p} data: a lag <= tau_max - period was reported although the same value "
+                     "occurs at a larger lag (visited first)", dict(P, lags=lst(ml)))
+        for est, kw in (("binning", {"bins": rng.choice([2, 3])}), ("gauss", {})):
+            try:
+                with quiet():
+                    v, lg = ca.mutual_information(tau_max=tm, estimator=est, lag_mode="max", **kw)
+            except ValueError:
+                continue
+            if np.any(lg >= p):
+                ctx.fail({"kind": "coupling", "method": "mutual_information", "estimator": est,
+                          "check": "first_maximum"},
+                         f"period-{p} data: a lag >= period was reported although the identical window "
+                         "occurs at a smaller lag (visited first)", dict(P, lags=lst(lg), **kw))
+        if T - tm - 1 >= 8:
+            try:
+                with quiet():
+                    v, lg = ca.information_transfer(tau_max=tm, estimator="gauss", past=1, lag_mode="max")
+            except ValueError:
+                continue
+            if np.any(lg[np.isfinite(v)] >= p):
+                ctx.fail({"kind": "coupling", "method": "information_transfer", "estimator": "gauss",
+                          "check": "first_maximum"},
+                         f"period-{p} data: a lag >= period was reported", dict(P, lags=lst(lg)))
 
 
 def oracle_it(ctx, ca, d, T, N, tm, past, cond, P):
